@@ -206,3 +206,65 @@ func (p *c20) missingUpdaterAndConditions(x *res, adapter string) {
 		}
 	}
 }
+
+// prefixNamedTables: registrations belong to ONE table. With tables whose names are prefixes of one another
+// ("tbq", "tbq_archive", "tbq2") on one client, deleting, clearing or re-creating one of them leaves the callbacks
+// registered for the others in force: the matcher still decides the filter, the updater still performs the update.
+func (p *c20) prefixNamedTables(x *res, adapter string) {
+	names := []string{"tbq", "tbq_archive", "tbq2", "xtbq"}
+	for di, gone := range names {
+		for _, how := range []string{"delete", "delete-and-recreate"} {
+			cl := adapt.New(adapter)
+			nc := nativeOf(cl)
+			native := interpreter.NewNativeInterpreter()
+			ran := map[string]int{}
+			for _, n := range names {
+				n := n
+				native.AddMatcher(n, interpreter.ExpressionTypeFilter, "PICK :x", func(item map[string]*mtypes.Item, _ map[string]*mtypes.Item) bool {
+					ran["m/"+n]++
+					return item["v"] != nil && item["v"].S != nil && *item["v"].S == "keep"
+				})
+				native.AddUpdater(n, "MARK :x", func(item map[string]*mtypes.Item, _ map[string]*mtypes.Item) {
+					ran["u/"+n]++
+					s := "marked by " + n
+					item["mark"] = &mtypes.Item{S: &s}
+				})
+			}
+			nc.setInterp(native)
+			nc.activate()
+			for _, n := range names {
+				cl.Do(createOp(mon.SpecHashOnly(n)))
+				cl.Do(adapt.Op{Kind: adapt.OpPut, Table: n, Item: val.Item{"h": val.Str("k1"), "v": val.Str("keep")}})
+				cl.Do(adapt.Op{Kind: adapt.OpPut, Table: n, Item: val.Item{"h": val.Str("k2"), "v": val.Str("drop")}})
+			}
+			if o := cl.Do(adapt.Op{Kind: adapt.OpDeleteTable, Table: gone}); o.Class != adapt.ClsOK {
+				x.viol("setup", "delete-table", o.Msg, nil)
+				return
+			}
+			if how == "delete-and-recreate" {
+				cl.Do(createOp(mon.SpecHashOnly(gone)))
+			}
+			for _, n := range names {
+				if n == gone {
+					continue
+				}
+				vals := val.Item{":x": val.Str("unused")}
+				sc := cl.Do(adapt.Op{Kind: adapt.OpScan, Table: n, Filter: "PICK :x", Values: vals})
+				up := cl.Do(adapt.Op{Kind: adapt.OpUpdate, Table: n, Key: val.Item{"h": val.Str("k1")}, Update: "MARK :x", Values: vals})
+				back := cl.Do(adapt.Op{Kind: adapt.OpGet, Table: n, Key: val.Item{"h": val.Str("k1")}})
+				x.r.Evals += 3
+				x.r.Counters["callbacks_after_a_prefix_named_table_went"]++
+				x.fp(true, "%s|prefix-named|%d|%s|%s", adapter, di, how, n)
+				wit := map[string]interface{}{"adapter": adapter, "table_removed": gone, "how": how, "table_used": n, "scan": sc, "update": up, "callbacks_run": ran}
+				switch {
+				case sc.Class == adapt.ClsRuntime || up.Class == adapt.ClsRuntime:
+					x.viol("runtime-panic", sc.Site+up.Site, fmt.Sprintf("[%s] native callbacks of %s after %s of %s: panic %s %s", adapter, n, how, gone, sc.Msg, up.Msg), wit)
+				case sc.Class != adapt.ClsOK || ran["m/"+n] == 0 || len(sc.Items) != 1 || !val.Equal(sc.Items[0]["h"], val.Str("k1")):
+					x.viol("other-table-registration-lost", "matcher/"+how, fmt.Sprintf("[%s] after %s of table %q the filter matcher registered for table %q no longer decides its scans: class %s (%s), matcher ran %d times, items %s", adapter, how, gone, n, sc.Class, sc.Msg, ran["m/"+n], adapt.ItemsCanon(sc.Items)), wit)
+				case up.Class != adapt.ClsOK || ran["u/"+n] != 1 || !val.Equal(back.Item["mark"], val.Str("marked by "+n)):
+					x.viol("other-table-registration-lost", "updater/"+how, fmt.Sprintf("[%s] after %s of table %q the updater registered for table %q no longer performs its updates: class %s (%s), updater ran %d times, item %s", adapter, how, gone, n, up.Class, up.Msg, ran["u/"+n], back.Item.Canon()), wit)
+				}
+			}
+		}
+	}
+}
